@@ -1,0 +1,11 @@
+//go:build verif
+
+package app
+
+import "github.com/ludo-technologies/pyscn/domain"
+
+// VerifCalculateSummary exposes calculateSummary to the verification driver.
+func VerifCalculateSummary(response *domain.AnalyzeResponse) {
+	uc := &AnalyzeUseCase{}
+	uc.calculateSummary(&response.Summary, response)
+}
